@@ -392,7 +392,7 @@ class BitSet(BaseBitSet):
         self.bits[bucket] &= ~(1 << (i & 7))
 
     def _resize_to_other(self, other):
-        if isinstance(other, (list, tuple, set, frozenset)):
+        if other and isinstance(other, (list, tuple, set, frozenset)):
             maxbit = max(other)
             if maxbit // 8 > len(self.bits):
                 self._resize(maxbit)
